@@ -483,6 +483,18 @@ def analyse():
     return w, sites, {"calls_total": len(calls), "calls_in_early_position": n_early_calls, "modules": len(w.mods)}
 
 
+def source_of(src: str) -> str:
+    if src.startswith("rng."):
+        return "rngWrapper"
+    if src.startswith("secrets."):
+        return "secrets"
+    if src.startswith("os."):
+        return "osUrandom"
+    if src.startswith("random.") or src.startswith("numpy.random."):
+        return "pseudo"
+    return "unknown"
+
+
 def lean_str(s: str) -> str:
     return '"' + s.replace("\\", "\\\\").replace('"', '\\"') + '"'
 
@@ -494,15 +506,16 @@ def gen_SecretSites() -> None:
            "def secretSites : List Site := ["]
     rows = []
     for s in sites:
-        rows.append("  { kind := .%s, field := %s, evalTime := .%s, loc := %s, via := %s, scope := %s, src := %s }" % (
-            s["kind"], lean_str(s["field"]), s["evalTime"], lean_str(s["loc"]), lean_str(s["via"]), lean_str(s["scope"]), lean_str(s["src"])))
+        rows.append("  { kind := .%s, field := %s, evalTime := .%s, loc := %s, via := %s, scope := %s, source := .%s, src := %s }" % (
+            s["kind"], lean_str(s["field"]), s["evalTime"], lean_str(s["loc"]), lean_str(s["via"]), lean_str(s["scope"]),
+            source_of(s["src"]), lean_str(s["src"])))
     out.append(",\n".join(rows))
     out.append("]")
     out.append("")
     out.append("/-- the functions of spsdk/crypto/rng.py: wrapped primitive, and whether every `return` returns a fresh draw -/")
     out.append("def rngWrappers : List Wrapper := [")
-    out.append(",\n".join("  { name := %s, prim := %s, everyReturnDraws := %s }" % (lean_str(n), lean_str(v["prim"]), "true" if v["every_return_draws"] else "false")
-                          for n, v in sorted(w.wrappers.items())))
+    out.append(",\n".join("  { name := %s, prim := %s, source := .%s, everyReturnDraws := %s }" % (
+        lean_str(n), lean_str(v["prim"]), source_of(v["prim"]), "true" if v["every_return_draws"] else "false") for n, v in sorted(w.wrappers.items())))
     out.append("]")
     out.append("")
     out.append("end SpsdkVerif.Generated")
